@@ -7,7 +7,7 @@
 (*  sim    (tlc -simulate): random interleavings on a random graph            *)
 (* Histories are printed in states where the network is empty again.          *)
 EXTENDS RouteDiscovery, Json, IOUtils
-VARIABLES hist, pre     \* pre: the model state before the last step (edges mode: one history per (source state, step))
+VARIABLES hist, links0, pre     \* pre: the model state before the last step (edges mode: one history per (source state, step))
 
 N3 == {1, 2, 3}
 N4 == {1, 2, 3, 4}
@@ -22,7 +22,7 @@ AllConnected == ConnectedGraphs
 
 Depth == IF "VERIF_DEPTH" \in DOMAIN IOEnv THEN atoi(IOEnv.VERIF_DEPTH) ELSE 12
 
-GInit == Init /\ hist = <<>> /\ pre = <<>>
+GInit == Init /\ hist = <<>> /\ pre = <<>> /\ links0 = links      \* links0: the initial link relation
 
 \* (a relayed stream that finds no next hop starts a route search of its own in the implementation; the
 \* model just drops it; the driver gives the search up and the judge counts it as one more FindRoute)
@@ -35,15 +35,33 @@ InjectUseful == last'.op = "inject" =>
 GNext == /\ Len(hist) < Depth
          /\ Next
          /\ InjectUseful
-         /\ hist' = Append(hist, last') /\ pre' = <<st, net>>
-GSpec == GInit /\ [][GNext]_<<vars, hist, pre>>
+         /\ hist' = Append(hist, last') /\ pre' = <<links, st, parked, net>> /\ UNCHANGED links0
+GSpec == GInit /\ [][GNext]_<<vars, hist, links0, pre>>
 
-EdgeView == <<pre, links, st, net, nfinds, ninjects, nexp, nloss, last>>
+EdgeView == <<pre, links, st, parked, net, nfinds, ninjects, nexp, nloss, nlink, last>>
 
-Scn == [par |-> [kind |-> "net", nodes |-> Node, links |-> links, alpha |-> Alpha, maxttl |-> MaxTTL], ops |-> hist]
+\* ---- relay that has to fall back to discovery -----------------------------------------------
+\* S=1 - a=2 - X=3 - T=4, z=5 - T.  Phase 1: FindRoute(S,T), everything delivered.  Phase 2: the link X-T
+\* goes down and a-z comes up (either order).  Phase 3: a relayed stream S -> T enters at a; a forwards it
+\* to X (its stored route), X has no hop left, searches, and learns a route that leads back through a.
+Chain5 == { {{1,2},{2,3},{3,4},{5,4}} }
+RPhaseOK ==
+  /\ (last'.op = "find" => nfinds = 0 /\ last'.n = 1 /\ last'.t = 4)
+  /\ (last'.op = "linkdown" => nfinds = 1 /\ <<last'.a, last'.b>> = <<3, 4>>)
+  /\ (last'.op = "linkup"   => nfinds = 1 /\ <<last'.a, last'.b>> = <<2, 5>>)
+  /\ (last'.op = "inject" => nlink = 2 /\ last'.m.to = 2 /\ last'.m.from = 1 /\ last'.m.dest = 4 /\ last'.m.paths = <<<<1>>>>)
+  /\ last'.op \notin {"lose", "expire", "cancel"}
+RNext == /\ Len(hist) < Depth
+         /\ Next
+         /\ RPhaseOK
+         /\ hist' = Append(hist, last') /\ pre' = <<links, st, parked, net>> /\ UNCHANGED links0
+RSpec == GInit /\ [][RNext]_<<vars, hist, links0, pre>>
+
+Scn == [par |-> [kind |-> "net", nodes |-> Node, links |-> links0, alpha |-> Alpha, maxttl |-> MaxTTL], ops |-> hist]
 
 Quiet == net = <<>> /\ hist # <<>>
 EmitQuiet == Quiet => PrintT(<<"SCN", ToJson(Scn)>>)
 EmitAll   == hist # <<>> => PrintT(<<"SCN", ToJson(Scn)>>)
 EmitDone  == (Quiet /\ nfinds = MaxFinds /\ ninjects = MaxInjects) => PrintT(<<"SCN", ToJson(Scn)>>)
+EmitRelayDone == ninjects = 1 => PrintT(<<"SCN", ToJson(Scn)>>)
 =============================================================================
